@@ -434,7 +434,7 @@ func ruleB4(r *Run) {
 				}
 			}
 			if IsBuiltin(winfo, call, "append") && len(call.Args) == 2 && call.Ellipsis.IsValid() {
-				if fv := fieldOf(winfo, call.Args[1]); fv != nil && fv.Name() == "metadata" {
+				if fv, ok := rootObj(winfo, wdefs, call.Args[1], 0).(*types.Var); ok && fv.IsField() && fv.Name() == "metadata" {
 					appendsMeta = true
 					okStmt = true
 				}
